@@ -269,4 +269,89 @@ mod c01 {
         println!("VERIF-B-SAMPLE violation classes this run: {:?}", run.counts);
         println!("VERIF-B unit=claim test=c01_tamper_signed_assets_end_to_end evaluations={} nontrivial={} exhaustive=true domain=assets signed by the SDK (IMG_0003.jpg, libpng-test.png; data hash and box hash) x mutations outside the signed exclusions: bit flips (first 64 bytes, a 60-point grid, container edges), appends and truncations of 1/16/37 bytes, a foreign and three C2PA-like segments / an ancillary chunk inserted at every structural boundary, every header segment deleted", run.evals, run.nontrivial);
     }
+
+    // the same byte-level mutation family (flips on a grid and at the edges of the manifest region, appends,
+    // truncations) on every other writable format with a fixture, signed with its default binding
+    #[test]
+    fn c01_tamper_signed_assets_other_formats() {
+        use crate::{asset_io::HashBlockObjectType, jumbf_io::get_assetio_handler};
+        let mut run = Run { evals: 0, nontrivial: 0, counts: std::collections::BTreeMap::new() };
+        let mut described = Vec::new();
+        for (file, mime, ext, tag) in [
+            ("sample1.gif", "image/gif", "gif", "gif"),
+            ("test.tiff", "image/tiff", "tif", "tiff"),
+            ("sample1.wav", "audio/wav", "wav", "wav"),
+            ("test.webp", "image/webp", "webp", "webp"),
+            ("sample1.mp3", "audio/mpeg", "mp3", "mp3"),
+            ("sample1.svg", "image/svg+xml", "svg", "svg"),
+            ("sample1.jxl", "image/jxl", "jxl", "jxl"),
+            ("sample1.flac", "audio/flac", "flac", "flac"),
+            ("video1_no_manifest.mp4", "video/mp4", "mp4", "mp4"),
+            ("sample1.heic", "image/heic", "heic", "heic"),
+        ] {
+            let Ok(bytes) = std::fs::read(fixture_path(file)) else { continue };
+            if bytes.is_empty() {
+                continue;
+            }
+            let signed = match sign(&bytes, mime, None) {
+                Ok(s) => s,
+                Err(e) => {
+                    println!("VERIF-B-SAMPLE {tag}: signing failed: {e}");
+                    continue;
+                }
+            };
+            let state = match read(&signed, mime) {
+                Ok((s, _)) => s,
+                Err(e) => {
+                    println!("VERIF-B-SAMPLE {tag}: reading the signed asset failed: {e}");
+                    continue;
+                }
+            };
+            if state == ValidationState::Invalid {
+                println!("VERIF-B-SAMPLE {tag}: freshly signed asset is Invalid - skipped");
+                continue;
+            }
+            // the manifest region as the handler reports it
+            let region = get_assetio_handler(ext)
+                .and_then(|h| h.get_writer(ext))
+                .and_then(|w| w.get_object_locations_from_stream(&mut Cursor::new(signed.clone())).ok())
+                .map(|locs| {
+                    let cai: Vec<_> = locs.iter().filter(|l| l.htype == HashBlockObjectType::Cai).collect();
+                    let a = cai.iter().map(|l| l.offset).min().unwrap_or(0);
+                    let b = cai.iter().map(|l| l.offset + l.length).max().unwrap_or(0);
+                    (a, b)
+                })
+                .unwrap_or((0, 0));
+            // BMFF: the C2PA BMFF hash itself excludes the ftyp, uuid(c2pa), free, skip and mfra top-level boxes
+            // (signed xpath exclusions); bytes in those boxes are outside the scope of the property
+            let mut ex: Vec<(usize, usize)> = Vec::new();
+            if ext == "mp4" || ext == "heic" {
+                let mut pos = 0usize;
+                while pos + 8 <= signed.len() {
+                    let mut size = u32::from_be_bytes([signed[pos], signed[pos + 1], signed[pos + 2], signed[pos + 3]]) as usize;
+                    let ty = &signed[pos + 4..pos + 8];
+                    if size == 1 && pos + 16 <= signed.len() {
+                        size = u64::from_be_bytes([signed[pos + 8], signed[pos + 9], signed[pos + 10], signed[pos + 11], signed[pos + 12], signed[pos + 13], signed[pos + 14], signed[pos + 15]]) as usize;
+                    }
+                    if size == 0 {
+                        size = signed.len() - pos;
+                    }
+                    if size < 8 {
+                        break;
+                    }
+                    if [&b"ftyp"[..], &b"uuid"[..], &b"free"[..], &b"skip"[..], &b"mfra"[..]].contains(&ty) {
+                        ex.push((pos, size));
+                    }
+                    pos += size;
+                }
+            }
+            described.push(format!("{tag}: {} bytes, state {state:?}, manifest region {region:?}, boxes excluded by the binding {ex:?}", signed.len()));
+            common_mutations(&mut run, &format!("{tag}.default_binding"), &signed, mime, &ex, region);
+        }
+        for d in &described {
+            println!("VERIF-B-SAMPLE {d}");
+        }
+        println!("VERIF-B-SAMPLE violation classes this run: {:?}", run.counts);
+        println!("VERIF-B unit=claim test=c01_tamper_signed_assets_other_formats evaluations={} nontrivial={} exhaustive=true domain=fixtures of GIF, TIFF, WAV, WebP, MP3, SVG, JPEG XL, FLAC, MP4, HEIC signed by the SDK x bit flips (first 64 bytes, a 60-point grid, edges of the manifest region), appends and truncations of 1/16/37 bytes, all outside the manifest region", run.evals, run.nontrivial);
+    }
 }
